@@ -119,6 +119,11 @@ type FnExec struct {
 	notes          []string
 	entryGh        map[string]string
 	inlDepth       int
+	inlStack       []*ssa.Function // callers of the helper being executed in place (inline.go)
+	inlRets        *[]inlRet       // returns of the helper being executed in place
+	rootFn         *ssa.Function   // the function under contract while a helper is executed in place
+	namePrefix     string          // prefix of block-indexed SMT names while a helper is executed in place
+	nInl           int
 	// hooks for families
 	onCall     func(fx *FnExec, call ssa.CallInstruction, args []Val, res *Val)
 	onReturn   func(fx *FnExec, ret *ssa.Return, vals []Val)
@@ -211,7 +216,7 @@ func (fx *FnExec) oblige(kind, goal string, instr ssa.Instruction, comment strin
 	if instr != nil {
 		pos, src = fx.W.posAndSrc(instr)
 	}
-	o := &Obligation{Kind: kind, Func: fx.Fn.String(), Goal: goal, PC: fx.cur.pc, prefix: len(fx.lines), fx: fx, Pos: pos, Src: src, Comment: comment}
+	o := &Obligation{Kind: kind, Func: fx.root().String(), Goal: goal, PC: fx.cur.pc, prefix: len(fx.lines), fx: fx, Pos: pos, Src: src, Comment: comment}
 	fx.obls = append(fx.obls, o)
 	// obligations at a return are independent of each other (the path ends there); elsewhere
 	// execution continues only if the obligation held
